@@ -338,7 +338,7 @@ pub fn run(ctx: &mut Ctx) {
         verdict(open_k6, &ops, false, st)
     });
 
-    let cases = ctx.tier.pick(200_000u64, 4_000_000u64);
+    let cases = ctx.tier.pick(1_000_000u64, 8_000_000u64);
     ctx.pbt("c13-random", cases, 600, |t, st| {
         let ops = gen_history(t, 60, false);
         st.eval();
